@@ -348,7 +348,33 @@ def cargo_env():
     return e
 
 
+def _relocate_harness():
+    """VERIF_REPO=<scratch copy of the repository> (used only to try the checks against mutants
+    without touching /repo): work on a copy of the harness whose path dependencies point there."""
+    global HARNESS
+    if REPO == "/repo" or getattr(_relocate_harness, "done", False):
+        return
+    dst = os.path.join(os.path.dirname(os.path.abspath(REPO)), "harness_for_" + os.path.basename(os.path.abspath(REPO)))
+    src = os.path.join(ROOT, "harness")
+    for base, dirs, files in os.walk(src):
+        dirs[:] = [d for d in dirs if d != "target"]
+        rel = os.path.relpath(base, src)
+        os.makedirs(os.path.join(dst, rel), exist_ok=True)
+        for f in files:
+            if f == "Cargo.lock":
+                continue
+            sp, dp = os.path.join(base, f), os.path.join(dst, rel, f)
+            data = open(sp, "rb").read()
+            if f == "Cargo.toml":
+                data = data.replace(b'"/repo/', ('"' + os.path.abspath(REPO) + '/').encode())
+            if not os.path.exists(dp) or open(dp, "rb").read() != data:
+                open(dp, "wb").write(data)
+    HARNESS = dst
+    _relocate_harness.done = True
+
+
 def ensure_lockfile():
+    _relocate_harness()
     src = os.path.join(REPO, "Cargo.lock")
     dst = os.path.join(HARNESS, "Cargo.lock")
     if not os.path.exists(dst):
@@ -369,11 +395,12 @@ def build_harness(member, timeout=3600):
     _built.add(member)
 
 
-def harness_bin(member):
-    return os.path.join(HARNESS, "target", "debug", member)
+def harness_bin(component):
+    return os.path.join(HARNESS, "target", "debug", component)
 
 
 def run_harness(member, args, stdin_path=None, stdout_path=None, timeout=3600, env=None):
+    """args[0] is the component = the binary name (harness/<member>/src/bin/<component>.rs)."""
     build_harness(member)
     e = dict(os.environ)
     e.setdefault("RUST_BACKTRACE", "0")
@@ -382,7 +409,7 @@ def run_harness(member, args, stdin_path=None, stdout_path=None, timeout=3600, e
     fin = open(stdin_path) if stdin_path else subprocess.DEVNULL
     fout = open(stdout_path, "w") if stdout_path else subprocess.PIPE
     try:
-        p = subprocess.run([harness_bin(member)] + list(args), stdin=fin, stdout=fout,
+        p = subprocess.run([harness_bin(args[0])] + list(args[1:]), stdin=fin, stdout=fout,
                            stderr=subprocess.PIPE, text=True, timeout=timeout, env=e)
     except subprocess.TimeoutExpired:
         raise ToolError("harness %s %s timed out" % (member, args))
@@ -451,10 +478,15 @@ def trace_validate(module, trace_events, wd, constants=None, timeout=600, extra_
 # ----------------------------------------------------------------------------- findings, evidence, outcome
 
 def known_findings():
-    p = os.path.join(ROOT, "known_findings.json")
-    if not os.path.exists(p):
-        return []
-    return json.load(open(p))["findings"]
+    """All entries of /verif/known_findings/*.json (committed; never written at run time).
+    Entry: {"id", "property" ("C01" or "C01,C03"), "status": "open"|"fixed", "commit"?, "signature", "what"}"""
+    d = os.path.join(ROOT, "known_findings")
+    out = []
+    if os.path.isdir(d):
+        for f in sorted(os.listdir(d)):
+            if f.endswith(".json"):
+                out += json.load(open(os.path.join(d, f)))["findings"]
+    return out
 
 
 def open_findings(prop):
